@@ -40,7 +40,8 @@ Theorem C02_types_exports_nodup_plain : forall p,
   NoDup (ms_exports (types_sum p false)).
 Proof. exact types_exports_nodup_plain. Qed.
 
-(* The property as stated (premise: closed world) is false of the faithful model *)
+(* The property as stated (premise: closed world) is still false of the faithful model
+   (add_types_prefix on a map-typed return) *)
 Theorem C02_refuted : exists p zod,
   wf p = true /\ closed_world p = true /\ ~ (closed (gen p zod) /\ exports_nodup (gen p zod)).
 Proof. exact closed_world_refuted. Qed.
@@ -49,17 +50,23 @@ Proof. exact closed_world_refuted. Qed.
 Theorem C02_class_witnesses :
   (kf_garbage w_garbage = true /\ broken w_garbage = true) /\
   in_class (kf_prefix w_prefix) w_prefix false /\
-  in_class (kf_zod_enum w_zod_enum true) w_zod_enum true /\
-  in_class (kf_result_one_arg w_result1) w_result1 false /\
-  in_class (kf_event_nested w_event_nested) w_event_nested false /\
   in_class (kf_event_head w_event_head) w_event_head false /\
   in_class (kf_dup_listener w_dup_listener) w_dup_listener false /\
   in_class (kf_collision w_collision false) w_collision false.
 Proof.
   split; [split; apply w_garbage_broken|].
-  split; [apply w_prefix_fails|]. split; [apply w_zod_enum_fails|]. split; [apply w_result1_fails|].
-  split; [apply w_event_nested_fails|]. split; [apply w_event_head_fails|]. split; [apply w_dup_listener_fails|].
+  split; [apply w_prefix_fails|]. split; [apply w_event_head_fails|]. split; [apply w_dup_listener_fails|].
   apply w_collision_fails. Qed.
+
+(* Repaired defects (Zod enum alias, one-argument Result, dependencies of event payload types, the
+   same event emitted twice, ipc::Channel): the former witnesses meet every premise, lie outside
+   every class and satisfy the oracle in both modes *)
+Theorem C02_repaired_witnesses :
+  repaired w_zod_enum true /\ repaired w_result1 false /\ repaired w_event_nested false /\
+  repaired w_event_nested true /\ repaired w_same_event_twice false /\ repaired w_ipc_channel true.
+Proof.
+  split; [apply w_zod_enum_repaired|]. split; [apply w_result1_repaired|]. split; [apply w_event_nested_repaired|].
+  split; [apply w_event_nested_repaired|]. split; [apply w_same_event_twice_repaired|]. apply w_ipc_channel_ok. Qed.
 
 (* Not asserted: the step from the premise of the property text to the side condition
    refs_declared (harvest/parse agreement lifted to projects, closure of resolve_types_lazily and
@@ -76,7 +83,7 @@ Example C02_ex_premises :
 Proof. destruct w_ok_premises as [A [B [C [D [E _]]]]]. repeat split; assumption. Qed.
 Example C02_ex_closed : closed (gen w_ok true) /\ exports_nodup (gen w_ok true).
 Proof. destruct w_ok_premises as [A [_ [C [_ [E _]]]]]. exact (C02_closed_partial w_ok true A C E). Qed.
-Example C02_ex_oracle : c02_ok (gen w_ok false) = true /\ c02_ok (gen w_zod_enum true) = false.
+Example C02_ex_oracle : c02_ok (gen w_ok false) = true /\ c02_ok (gen w_prefix false) = false.
 Proof. split; vm_compute; reflexivity. Qed.
 
 Print Assumptions C02_oracle_closed_iff.
@@ -87,3 +94,4 @@ Print Assumptions C02_closed_plain_partial.
 Print Assumptions C02_types_exports_nodup_plain.
 Print Assumptions C02_refuted.
 Print Assumptions C02_class_witnesses.
+Print Assumptions C02_repaired_witnesses.
